@@ -17,22 +17,36 @@ def generate(run_seed, tier, index):
 
 def execute(sc, check=None):
     m = FW.materialise(sc)
-    out = FW.run_filter(sc, m)
-    viol = sched.check_c09(sc, m, out)
-    if sc['knobs'].get('rerun') and not viol:
-        # the same call again with the SAME measurement and sensor-model objects: every
-        # clause must hold for the second run as well
+    mode = sc['knobs'].get('rerun')
+    mode = 'same' if mode is True else mode
+    if mode == 'prefix':
+        # an earlier call over the first half of the data with the SAME measurement and
+        # sensor-model objects must not change what the full run does
+        kw0 = FW.filter_kwargs(sc, m)
+        FW.run_prefix(sc, m, kw0)
         FW.reset_spies(m)
-        out = FW.run_filter(sc, m, reuse=out.kwargs)
+        out = FW.run_filter(sc, m, reuse=kw0)
         viol = sched.check_c09(sc, m, out)
+        note = "(after an earlier run over the first half of the data with the same " \
+               "measurement and model objects) "
+    else:
+        out = FW.run_filter(sc, m)
+        viol = sched.check_c09(sc, m, out)
+        note = ''
+        if mode == 'same' and not viol:
+            # the same call again with the same objects: every clause must hold again
+            FW.reset_spies(m)
+            out = FW.run_filter(sc, m, reuse=out.kwargs)
+            viol = sched.check_c09(sc, m, out)
+            note = "(second run with the same measurement and model objects) "
+    if note:
         for v in viol:
-            v['detail'] = "(second run with the same measurement and model objects) " + \
-                v['detail']
+            v['detail'] = note + v['detail']
             v['key'] = 'rerun/' + v['key']
     return dict(violations=viol, digest=sched.result_digest(sc, m, out),
                 sig=FW.signature(sc, m), nontrivial=FW.nontrivial(sc, m),
-                probes=dict(FW.probes(sc, m, out), **({'second_run_same_objects': 1}
-                                                       if sc['knobs'].get('rerun') else {})), faults=FW.fault_counts(sc),
+                probes=dict(FW.probes(sc, m, out), **({'second_run_' + str(mode): 1}
+                                                       if mode else {})), faults=FW.fault_counts(sc),
                 sim_s=FW.sim_seconds(sc), ops=len(sc['imu']['stamps']) - 1 +
                 sum(len(s['stamps']) for s in sc['sensors']),
                 extra=dict(filter_lines=out.lines, kernel_calls=out.kernel_calls,
@@ -62,6 +76,7 @@ PROBES_WANTED = ['sample_in_last_interval', 'three_in_one_interval', 'stamp_at_s
                  'buffer_growth_inside_filter', 'empty_table', 'all_samples_lost',
                  'measurements_none', 'measurements_empty', 'models_omitted',
                  'default_time_step', 'gps_week_scale_clock', 'negative_clock', 'clock_crosses_zero',
+                 'second_run_same', 'second_run_prefix',
                  'a_plus_gap_rounds_off_next_stamp', 'stamp_one_ulp_from_epoch']
 
 
